@@ -672,6 +672,11 @@ func (a *Agent) startConnectivityChecks(isControlling bool, remoteUfrag, remoteP
 
 	return a.loop.Run(a.loop, func(_ context.Context) {
 		a.isControlling.Store(isControlling)
+		// Pairs formed before the agent was started were created without knowing
+		// the role; their priorities depend on it.
+		for _, pair := range a.checklist {
+			pair.iceRoleControlling = isControlling
+		}
 		a.remoteUfrag = remoteUfrag
 		a.remotePwd = remotePwd
 		a.setSelector()
